@@ -299,15 +299,19 @@ pub fn world(ch: &mut Chooser) -> World {
         d("Main", "program", "PROGRAM Main VAR c : Callee ; END_VAR c ( ) ; END_PROGRAM")
     };
     // ---------------- configuration
-    let task = ch.pick("task", &["defined", "no-task", "undefined-task", "two-tasks-second-used", "wrong-case-task"], 1);
+    let task = ch.pick("task", &["defined", "no-task", "undefined-task", "two-tasks-second-used", "wrong-case-task", "second-resource-uses-task-of-the-first", "two-resources-each-with-the-task"], 1);
+    // a second resource: task names are local to their resource
+    let res2_s = ["", "", "", "", "", " RESOURCE res2 ON PLC PROGRAM inst2 WITH t : Main ; END_RESOURCE", " RESOURCE res2 ON PLC TASK t ( PRIORITY := 2 ) ; PROGRAM inst2 WITH t : Main ; END_RESOURCE"][task];
     let (task_s, with_s) = [
         ("TASK t ( INTERVAL := T#100ms , PRIORITY := 1 ) ;", " WITH t"),
         ("", ""),
         ("", " WITH t"),
         ("TASK t ( INTERVAL := T#100ms , PRIORITY := 1 ) ; TASK t2 ( PRIORITY := 2 ) ;", " WITH t2"),
         ("TASK t ( INTERVAL := T#100ms , PRIORITY := 1 ) ;", " WITH T"),
+        ("TASK t ( INTERVAL := T#100ms , PRIORITY := 1 ) ;", " WITH t"),
+        ("TASK t ( INTERVAL := T#100ms , PRIORITY := 1 ) ;", " WITH t"),
     ][task];
-    if task == 2 {
+    if task == 2 || task == 5 {
         w.violated.insert("P0011");
     }
     let g2 = ch.pick("global2", &["none", "of-enumeration-type", "of-structure-type", "of-unknown-type"], 1);
@@ -319,14 +323,15 @@ pub fn world(ch: &mut Chooser) -> World {
         "cfg",
         "configuration",
         &format!(
-            "CONFIGURATION cfg VAR_GLOBAL {}G : INT := 1 ; END_VAR RESOURCE res ON PLC {}{} PROGRAM inst1{} : Main ; END_RESOURCE END_CONFIGURATION",
+            "CONFIGURATION cfg VAR_GLOBAL {}G : INT := 1 ; END_VAR RESOURCE res ON PLC {}{} PROGRAM inst1{} : Main ; END_RESOURCE{} END_CONFIGURATION",
             if gconst { "CONSTANT " } else { "" },
             if g2 == 0 { String::new() } else { format!("VAR_GLOBAL {}END_VAR ", g2_s) },
             task_s,
-            with_s
+            with_s,
+            res2_s
         ),
     );
-    cfg.faulty = task == 2 || g2 == 3;
+    cfg.faulty = task == 2 || task == 5 || g2 == 3;
     let pos = ch.pick("hostpos", &["host-after-its-dependencies", "host-first"], 0);
     w.decls = if pos == 0 { vec![tdecl, callee, func, host, main, cfg] } else { vec![host, main, cfg, tdecl, callee, func] };
     w.labels.extend(ch.labels.iter().cloned());
